@@ -163,8 +163,24 @@ func (g *schemaGenerator) generateReferencedType(t *schemas.Type) (codegen.Type,
 	}
 
 	nt, ok := dt.(*codegen.NamedType)
+	if pt, isPtr := dt.(*codegen.PointerType); !ok && isPtr {
+		// A nullable format type, e.g. *time.Time.
+		if ext, isNamed := pt.Type.(*codegen.NamedType); isNamed && ext.Package != nil {
+			nt, ok = ext, true
+		}
+	}
+
 	if !ok {
 		return nil, fmt.Errorf("%w: got %T", errExpectedNamedType, t)
+	}
+
+	if nt.Package != nil {
+		// A type from another Go package (time.Time, netip.Addr, ...) is used as is.
+		for _, i := range nt.Package.Imports {
+			g.output.file.Package.AddImport(i.QualifiedName, "")
+		}
+
+		return dt, nil
 	}
 
 	if isCycle {
@@ -280,6 +296,16 @@ func (g *schemaGenerator) generateDeclaredType(t *schemas.Type, scope nameScope)
 	theType, err := g.generateType(t, scope)
 	if err != nil {
 		return nil, err
+	}
+
+	// Format types (time.Time, netip.Addr, ...) come from other packages; declaring them under a
+	// new name would drop the methods that (un)marshal them.
+	if nt, ok := theType.(codegen.NamedType); ok {
+		theType = &nt
+	} else if pt, ok := theType.(*codegen.PointerType); ok {
+		if nt, ok := pt.Type.(codegen.NamedType); ok {
+			theType = &codegen.PointerType{Type: &nt}
+		}
 	}
 
 	if isNamedType(theType) {
